@@ -1,4 +1,5 @@
 import ShroudVerif.Model.Flags
+import ShroudVerif.Model.FlagGroups
 import Driver.Codec
 namespace Driver
 open Shroud.Flags
@@ -98,6 +99,30 @@ def handleStep : List String → String
       let r := step kind v (decWF d) (decWF node)
       " ".intercalate (encWF r.1 :: r.2.map encWF)
     | _, _ => "bad-op"
+  | _ => "bad-op"
+
+/-- function tokens `name:on:gen` (decimal name id, bits); `idx` = position -/
+def decFns (ts : List String) : List Fn :=
+  (ts.zipIdx).map (fun (t, i) =>
+    match t.splitOn ":" with
+    | [n, o, g] => ⟨n.toNat!, o == "1", g == "1", i⟩
+    | _ => ⟨0, false, false, i⟩)
+
+def encIdxs (ms : List Fn) : String := ",".intercalate (ms.map (fun f => toString f.idx))
+
+def encGroups (g : Groups) : String :=
+  if g.isEmpty then "-" else ";".intercalate (g.map (fun (n, ms) => toString n ++ "=" ++ encIdxs ms))
+
+/-- `groups <lua|pytable|pydispatch|fgeneric|wrapped> <name:on:gen>...` -> the groups / wrapped functions by position -/
+def handleGroups : List String → String
+  | k :: ts =>
+    let fs := decFns (ts.filter (· != ""))
+    if k == "lua" then encGroups (luaGroups fs)
+    else if k == "pytable" then encGroups (pyTable fs)
+    else if k == "pydispatch" then encGroups (pyDispatch fs)
+    else if k == "fgeneric" then encGroups (fGenerics fs)
+    else if k == "wrapped" then (let w := wrapped fs; if w.isEmpty then "-" else encIdxs w)
+    else "bad-op"
   | _ => "bad-op"
 
 end Driver
